@@ -186,10 +186,15 @@ def run_case(case: dict) -> dict:
         # a healthy recovery sweep before every delivery, i.e. also while a retry / re-poll waits for its back-off:
         # sweeps must not add attempts
         inj = [{"at": s_, "do": "recovery"} for s_ in range(0, 300)]
-    run = delivery_run(spec, seed=case["seed"], order=case["order"], noack_p=noack, max_steps=140 if case["kind"] != "mixed" else 260, world=world, injections=inj)
+    run = delivery_run(spec, seed=case["seed"], order=case["order"], noack_p=noack, max_steps=(140 if case["kind"] != "mixed" else 260) * (5 if inj else 1), world=world, injections=inj)
     obs: Counter = Counter({"evaluations": 1})
     if inj:
         obs["runs_with_sweeps_during_backoff"] += 1
+        if run.budget_exhausted:
+            # every sweep may push (harmless) nudges that cost deliveries: a run that did not drain within the
+            # step budget decides nothing
+            obs["budget_exhausted"] += 1
+            return {"violations": [], "obs": dict(obs), "keys": []}
     out = []
     recs = [r for r in run.ledger if r["ref"] == "b" and r["task"] == case["pos"]]
     n = len(recs)
